@@ -81,6 +81,35 @@ pub fn gen_file(seed: u64, i: u64, want_many: bool) -> (Vec<u8>, usize) {
     }
 }
 
+/// file #i of the wide-container stage: 256..1340 small objects, all of them in object streams of up to `limit` objects
+pub fn gen_wide_file(seed: u64, i: u64) -> (Vec<u8>, usize) {
+    let mut r = Rng::for_case(seed, "C08-wide", 0, i);
+    let n = *r.pick(&[256u32, 257, 300, 301, 511, 512, 513, 777, 1000, 1001, 1300]) + if r.chance(1, 3) { r.below(40) as u32 } else { 0 };
+    let mut objects: BTreeMap<(u32, u16), RObj> = BTreeMap::new();
+    objects.insert((1, 0), RObj::Dict(vec![(b"Type".to_vec(), RObj::Name(b"Catalog".to_vec()))]));
+    for num in 2..=n {
+        let o = match r.below(4) {
+            0 => RObj::Int(num as i64),
+            1 => RObj::Str(format!("object {}", num).into_bytes(), false),
+            2 => RObj::Array(vec![RObj::Ref(1 + num % n, 0), RObj::Name(format!("N{}", num).into_bytes())]),
+            _ => RObj::Dict(vec![(b"N".to_vec(), RObj::Int(num as i64)), (b"Next".to_vec(), RObj::Ref(1 + num % n, 0))]),
+        };
+        objects.insert((num, 0), o);
+    }
+    let mut h = gen_history(&mut r, 3, 1);
+    h.revisions.truncate(1);
+    h.revisions[0] = Revision { objects, trailer: vec![(b"Root".to_vec(), RObj::Ref(1, 0))] };
+    let mut ch = Choices::new(r.next_u64());
+    for f in ["str-raw-cr-eol", "str-raw-crlf-eol"] {
+        ch.disabled.insert(f.to_string());
+    }
+    let limit = if r.bool() { n as usize + 10 } else { 256 + r.usize_below(600) };
+    let mut rw = RefWriter::new(&mut ch);
+    rw.pack_limit = limit;
+    let w = rw.write(&h, XrefStyle::Stream, true);
+    (w.bytes, (n as usize).min(limit))
+}
+
 fn factorial(k: usize) -> i64 {
     (1..=k as i64).product()
 }
@@ -211,6 +240,49 @@ pub fn run(cfg: &RunCfg) -> (PropMeta, ShardOut, Map<String, Value>) {
             out.sample(json!({"stage":2,"file":i,"bytes":bytes.len(),"object_streams":k,"distinct_completion_orders":file_orders.len()}));
         }
     }
+    // ---- stage 2b: wide object streams (hundreds of objects in one container, as ordinary producers write them): how
+    // the index of one container is divided among the workers must not show in the result
+    let n3 = cfg.n(12, 80);
+    for i in 0..n3 {
+        let (bytes, widest) = gen_wide_file(cfg.seed, i);
+        MERGE_PERM.store(-1, Ordering::Relaxed);
+        DELAY_SEED.store(0, Ordering::Relaxed);
+        let Ok(base) = Document::load_mem(&bytes) else {
+            out.count("files_not_loadable");
+            continue;
+        };
+        let d0 = digest(&base);
+        out.counters.insert(format!("digest:s2b:{}", i), d0);
+        out.evaluations += 1;
+        out.digests.insert(crate::prng::fnv_bytes(&bytes));
+        if is_seq {
+            continue;
+        }
+        out.max("max_objects_in_one_object_stream", widest as u64);
+        if let Some(sd) = seq.get(&format!("digest:s2b:{}", i)) {
+            out.count("compared_with_sequential_build");
+            if *sd != d0 {
+                out.finding(Finding {
+                    signature: "C08/differs-from-sequential".into(),
+                    what: format!("wide file {} ({} objects in one object stream): parallel load digest {:x} != sequential build digest {:x}", i, widest, d0, sd),
+                    witness: json!({"kind":"file","file_hex":hex(&bytes),"object_streams":1,"widest":widest}),
+                });
+            }
+        }
+        for threads in [1usize, 2, 3, 4, 5, 6, 7, 8, 16] {
+            let d = load_in_pool(&bytes, threads).map(|d| digest(&d)).unwrap_or(0);
+            out.evaluations += 1;
+            out.count("wide_object_stream_pool_loads");
+            if d != d0 {
+                out.finding(Finding {
+                    signature: "C08/schedule-dependent".into(),
+                    what: format!("wide file {} ({} objects in one object stream): load on a pool of {} threads gives digest {:x}, default load gives {:x}", i, widest, threads, d, d0),
+                    witness: json!({"kind":"file","file_hex":hex(&bytes),"object_streams":1,"threads":threads,"widest":widest}),
+                });
+                break;
+            }
+        }
+    }
     // ---- stage 3 (thorough, default-features build only): Miri on the rayon loader
     if !is_seq && !cfg.quick() {
         miri_stage(cfg, &mut out);
@@ -228,7 +300,7 @@ pub fn run(cfg: &RunCfg) -> (PropMeta, ShardOut, Map<String, Value>) {
     }
     let meta = PropMeta {
         level: "fault_enumeration",
-        rule: "stage 1: files with 2..6 object streams (multi-revision histories, so the same object number occurs in several containers; zero-length streams and indirect lengths included): through hook H1 every one of the k! orders in which the parallel phase can append the containers' objects is applied and the canonical digest (objects, trailer, max_id, version) must equal the natural-order digest and the digest computed by the no-default-features (sequential) build; stage 2: files with >= 8 object streams loaded 12 times in rayon pools of 1..16 threads with seeded delays before the accumulator lock; digests must agree and the completion orders actually observed are counted. distinct = distinct files.".into(),
+        rule: "stage 1: files with 2..6 object streams (multi-revision histories, so the same object number occurs in several containers; zero-length streams and indirect lengths included): through hook H1 every one of the k! orders in which the parallel phase can append the containers' objects is applied and the canonical digest (objects, trailer, max_id, version) must equal the natural-order digest and the digest computed by the no-default-features (sequential) build; stage 2: files with >= 8 object streams loaded 12 times in rayon pools of 1..16 threads with seeded delays before the accumulator lock; digests must agree and the completion orders actually observed are counted; stage 2b: files whose object streams hold 256..1300 objects each, loaded in pools of 1..8 and 16 threads and by the sequential build (how the index of one container is divided among workers must not show). distinct = distinct files.".into(),
         assumptions: vec![
             "the merge of object-stream contents is the only point where completion order can reach the result (anchor of the property); interleavings inside the parse of one object are sampled (pools, delays), not enumerated".into(),
             "the Miri stage of DESIGN.md §4 C08 runs only in the thorough tier".into(),
